@@ -29,7 +29,7 @@ pub enum LpKind {
 
 #[derive(Clone, Debug, Serialize, Deserialize, PartialEq)]
 pub enum FeeKind {
-    /// native fee denom "ufee"
+    /// native fee denom "urewf"
     Native,
     /// cw20 fee token
     Cw20,
@@ -67,7 +67,7 @@ pub struct IncWorld {
 
 impl IncWorld {
     pub fn build(cfg: &IncCfg) -> Result<IncWorld, String> {
-        let mut w = World::new_with_fund(&I_USERS, &["ulp", "urew", "ufee", "uaaa", "ubbb"], I_FUND);
+        let mut w = World::new_with_fund(&I_USERS, &["ulp", "urew", "urewf", "uaaa", "ubbb"], I_FUND);
         w.setup_pool_network();
         let owner = w.owner.clone();
         let collector = w.fee_collector.clone().unwrap();
@@ -130,7 +130,7 @@ impl IncWorld {
             vec![rew_native.clone(), rew_cw20.clone(), lp.clone()]
         };
         let fee_asset = match cfg.fee {
-            FeeKind::Native => native("ufee"),
+            FeeKind::Native => native("urewf"),
             FeeKind::Cw20 => token(&w.create_cw20_with_fund("feetok", 6, I_FUND)),
             FeeKind::SameAsFlow0 => flow_assets[0].clone(),
             FeeKind::SameAsLp => lp.clone(),
